@@ -26,6 +26,12 @@ def plan(tier, seed):
     specs.append(dict(name="direct-jit", mode="jit", what="direct", n=60 if q else 600, seed=[seed, 198, 0], jit=True))
     for p in range(1 if q else 4):
         specs.append(dict(name="front-jit-%d" % p, mode="jit", what="front", n=6 if q else 20, seed=[seed, 197, p]))
+    # the same work in an interpreter started with -O (assert statements compiled away)
+    byname = {sp["name"]: sp for sp in specs}
+    if 'front-0' in byname:
+        specs.append(common.under_O(byname['front-0'], **{}))
+    if 'direct-0' in byname:
+        specs.append(common.under_O(byname['direct-0'], **{}))
     return specs
 
 
